@@ -11,7 +11,9 @@
                            initializeTrackProcessors (map ID -> processor), processSegment
      mediacommon mpegts/time_decoder.go   TimeDecoder.Decode                       -> Decode
      client_time_conv_mpegts.go   initialize / convert / setNTP / getNTP           -> mpegts_initialize / ...
-     client_stream_processor_mpegts.go  mpegtsPickLeadingTrack, processSample, processSegment
+     client_stream_processor_mpegts.go  mpegtsPickLeadingTrack, processSample, processSegment,
+                           initializeReader's supportedTracks filter over Reader.Tracks()     -> supportedTracks / readerView
+     mediacommon mpegts/reader.go   Read's dispatch r.onData[data.PID]               -> supportedIndex / readerDispatch
      client_stream_downloader.go  downloadSegment's Range computation              -> downloadRange
 
    Conventions (DESIGN.md section 3): all numbers are unbounded Z; time.Time is an integer
@@ -491,6 +493,75 @@ Definition runClientMPEGTS (leading : mstream) (renditions : list mstream)
   let '(s1, a) := x in
   b <- runRenditionsMPEGTS s1 (length (mst_tracks leading)) renditions ;;
   Ok (a ++ b).
+
+(* ---------- the PMT: mediacommon's Reader.Tracks() and initializeReader's filter ---------- *)
+(* What an elementary stream of the PMT is to the client: initializeReader's type switch
+   keeps *mpegts.CodecH264 and *mpegts.CodecMPEG4Audio, every other codec mediacommon's
+   Track.unmarshal can produce (H265, MPEG-1/2/4 video, MPEG-1 audio, AC-3, Opus,
+   CodecUnsupported) is skipped. *)
+Inductive pmtCodec := PH264 | PMPEG4Audio | POther.
+
+(* a MPEG-TS playlist as mediacommon's Reader presents it: [pmt_tracks] = p.reader.Tracks()
+   (PMT order); the segments list every PES the demultiplexer completes, in order, with
+   [pe_track] = position of the PES's PID in the PMT *)
+Record pmtStream := { pmt_tracks : list pmtCodec; pmt_segments : list msegment }.
+
+(* supportedTracks: for _, track := range p.reader.Tracks() { switch track.Codec.(type) {
+   case *mpegts.CodecH264, *mpegts.CodecMPEG4Audio: supportedTracks = append(..) } } *)
+Fixpoint supportedTracks (l : list pmtCodec) : list mcodec :=
+  match l with
+  | [] => []
+  | PH264 :: r => MH264 :: supportedTracks r
+  | PMPEG4Audio :: r => MAudio :: supportedTracks r
+  | POther :: r => supportedTracks r
+  end.
+
+(* Reader.Read: onData, ok := r.onData[data.PID]; if !ok { return nil }. initializeReader
+   registers a callback for supportedTracks[i] only (OnDataH264 / OnDataMPEG4Audio), whose
+   closure knows i: PMT position k -> i, None when no callback is registered for that PID *)
+Fixpoint supportedIndex (l : list pmtCodec) (k : nat) : option nat :=
+  match l with
+  | [] => None
+  | c :: r =>
+      match k with
+      | O => match c with POther => None | _ => Some O end
+      | S k' =>
+          match supportedIndex r k' with
+          | None => None
+          | Some i => Some (match c with POther => i | _ => S i end)
+          end
+      end
+  end.
+
+Definition readerDispatch (l : list pmtCodec) (e : pes) : list pes :=
+  match supportedIndex l (pe_track e) with
+  | None => []
+  | Some i => [{| pe_track := i; pe_rawPTS := pe_rawPTS e; pe_rawDTS := pe_rawDTS e;
+                  pe_payload := pe_payload e; pe_elapsed := pe_elapsed e; pe_anchor := pe_anchor e |}]
+  end.
+
+Definition readerSegment (l : list pmtCodec) (s : msegment) : msegment :=
+  {| ms_dateTime := ms_dateTime s; ms_pes := flat_map (readerDispatch l) (ms_pes s) |}.
+
+(* what the stream processor's callbacks see: the supported tracks, and the PES that arrive
+   on their PIDs; leadingTrackID := mpegtsPickLeadingTrack(supportedTracks) and the
+   "no supported tracks found" check are in [runStreamMPEGTS] *)
+Definition readerView (st : pmtStream) : mstream :=
+  {| mst_tracks := supportedTracks (pmt_tracks st);
+     mst_segments := map (readerSegment (pmt_tracks st)) (pmt_segments st) |}.
+
+Definition runStreamPMT (isLeading : bool) (s : mstate) (st : pmtStream)
+  : res (mstate * list (nat * delivery)) :=
+  runStreamMPEGTS isLeading s (readerView st).
+
+(* the tracks OnTracks reports: the supported tracks of the leading playlist, then those of
+   each rendition (setTracks), every one with ClockRate 90000 *)
+Definition reportedTracksPMT (leading : pmtStream) (renditions : list pmtStream) : list mcodec :=
+  supportedTracks (pmt_tracks leading) ++ flat_map (fun st => supportedTracks (pmt_tracks st)) renditions.
+
+Definition runClientPMT (leading : pmtStream) (renditions : list pmtStream)
+  : res (list (nat * delivery)) :=
+  runClientMPEGTS (readerView leading) (map readerView renditions).
 
 (* ---------- client_stream_downloader.go: downloadSegment's Range header ---------- *)
 (* length != nil: "bytes=<start>-<start+length-1>" with start defaulting to 0 *)
